@@ -30,6 +30,7 @@ STATEMENTS = [
     'import bs4', 'from bs4 import BeautifulSoup', 'import bs4.element', 'import bs4.css', 'import soupsieve',
     'import soupsieve as sv', 'from soupsieve import css_match', 'import soupsieve.css_parser', 'import soupsieve.css_types',
     'import soupsieve.util', 'import soupsieve.pretty', 'from soupsieve import __meta__',
+    'from soupsieve import *', 'from bs4 import *',
 ]
 PROLOGUE = (
     'import sys, warnings, json, os\n'
